@@ -160,7 +160,7 @@ inline sonic_json::JsonPointer to_json_pointer(const std::vector<model::PathElem
 // ---- walker: read a node through the public accessor API
 template <class N>
 void walk(const N& n, std::string& out, int depth = 0) {
-  if (depth > 300) violate("model", "walk", "nesting deeper than anything the plan built");
+  if (depth > 4000) violate("model", "walk", "nesting deeper than anything the plan built");
   {  // the kind tests partition the nodes
     int kinds = (int)n.IsNull() + (int)n.IsBool() + (int)n.IsNumber() + (int)n.IsString() + (int)n.IsArray() + (int)n.IsObject() + (int)n.IsRaw();
     if (kinds != 1) violate("model", "walk", "a node answers true to " + std::to_string(kinds) + " of the kind tests IsNull/IsBool/IsNumber/IsString/IsArray/IsObject/IsRaw");
@@ -238,7 +238,7 @@ void walk(const N& n, std::string& out, int depth = 0) {
 // copy owns has its own bytes; only strings that are const views on both sides may alias caller memory
 template <class S, class D>
 void check_copy_independent(const S& src, const D& dst, bool copy_str, int depth = 0) {
-  if (depth > 300) return;
+  if (depth > 4000) return;
   if (src.IsString() && dst.IsString()) {
     bool sc = src.IsStringConst(), dc = dst.IsStringConst();
     if (copy_str && dc) violate("model", "copy:const_kept", "CopyFrom(copyString=true) left a const (not owned) string in the copy");
